@@ -38,6 +38,9 @@ def cases(tier):
     for k in ks:
         for entry in ("generator", "generate"):
             out.append({"name": f"{entry}/k{k}", "k": k, "entry": entry})
+    for entry in ("generator", "generate"):
+        # two grades of one species: components whose plain notation is the same text
+        out.append({"name": f"{entry}/k2-same-species", "k": 2, "entry": entry, "text": "C.|50%|C.|100|"})
     return out
 
 
@@ -48,7 +51,7 @@ def run_case(case, g, tier, res):
     k = case["k"]
 
     def h(c):
-        system = g.System(TEXT[k] if k in TEXT else T4)
+        system = g.System(case.get("text") or (TEXT[k] if k in TEXT else T4))
         S = c.fresh_real("S", 1, 1e9)
         fr = [c.fresh_real(f"f{i}", 0, 100) for i in range(k - 1)]  # a declared share of exactly 0 % is allowed
         last = 100 - sum(fr, 0.0)
@@ -119,7 +122,7 @@ def run_case(case, g, tier, res):
             fv = [float(c.eval_in(mv, f)) for f in fr]
             mv_ = [float(c.eval_in(mv, m)) for m in mbar]
             return (f"C14:pick-not-over-all-components@System.{case['entry']}", f"the component pick is not over all {k} declared components for declared mass fractions {fv}",
-                    {"kind": "share", "entry": case["entry"], "fractions": fv, "mbar": mv_, "p": [], "k": k, "what": "components"})
+                    {"kind": "share", "entry": case["entry"], "fractions": fv, "mbar": mv_, "p": [], "k": k, "what": "components", "text": case.get("text")})
 
         c.prove(len(p) == k and (rec is None or [int(x) for x in rec.items] == list(range(k))), "pick is over all declared components", build0)
         denom = sum((p[j] * mbar[j] for j in range(k)), 0.0)
@@ -164,6 +167,33 @@ def replay(rp, gb):
     masses = [12.011 * len(s) for s in smiles]
     total = 40000.0
     text = "".join(f"{s}.|{fi!r}%|" for s, fi in zip(smiles[:-1], f[:-1])) + f"{smiles[-1]}.|{total * f[-1] / 100.0!r}|"
+    if rp.get("what") == "components" and rp.get("text"):
+        # components of one species: the case's own text, the fractions written onto the parsed mixtures as in the harness
+        system = gb.System(rp["text"])
+        for mol, fi in zip(system._molecules, f):
+            mol.mixture._relative_mass, mol.mixture._system_mass, mol.mixture._absolute_mass = fi, 1000.0, fi * 10.0
+        seen = []
+
+        class Rec0:
+            def __init__(self):
+                self.real = np.random.default_rng(5)
+
+            def choice(self, a, size=None, replace=True, p=None, **kw):
+                seen.append(len(range(a)) if isinstance(a, int) else len(list(a)))
+                return self.real.choice(a, size=size, replace=replace, p=p, **kw)
+
+            def __getattr__(self, n):
+                return getattr(self.real, n)
+
+        try:
+            if rp["entry"] == "generator":
+                System.generator.fget.__defaults__ = (Rec0(),)
+                next(iter(system.generator))
+            else:
+                system.generate(rng=Rec0())
+        except Exception as e:
+            return True, f"raised {type(e).__name__}"
+        return bool(seen) and seen[0] != k, f"system {rp['text']}: the component pick is over {seen[:1]} options for {k} declared components"
     system = gb.System(text)
     if rp.get("what") == "measure":
         # empirical pick frequencies of the plain package against the declared fractions (4000 single generations, seeded)
